@@ -10,6 +10,17 @@ Open Scope N_scope.
 Lemma gen_cfg_fixed : gen_raft_tail_repair = true /\ gen_persist_before = true.
 Proof. split; reflexivity. Qed.
 
+(* the table of ALL persist_term_and_vote call sites of raft.rs (request vote x2, vote response,
+   pre-vote response, append entries, append-entries response, start_election, snapshot install,
+   start_election_async -- nine sites; a new site changes the length and must be reviewed): at each
+   the logged term and vote are the ones the handler then adopts in memory, which is what the model's
+   step does at the corresponding step (TermAndVote t v is followed by term := t, voted := v).
+   And install_snapshot_entries logs the installed entries before it replaces the in-memory log. *)
+Lemma gen_persist_sites_fixed :
+  gen_persist_sites_ok = [true; true; true; true; true; true; true; true; true]
+  /\ gen_snapshot_log_persisted = true.
+Proof. split; reflexivity. Qed.
+
 Section I.
 Variable ser : rentry -> list byte.
 Variable deser : list byte -> option rentry.
